@@ -12,7 +12,7 @@ from extract import ExtractionError
 
 ERRMSG = "prqlc/prqlc/src/error_message.rs"
 
-LABELS = ["CP1", "CP2", "CP3", "CL1", "CL2", "FC1", "FC2"]
+LABELS = ["CP1", "CP2", "CP3", "CP4", "CL1", "CL2", "FC1", "FC2"]
 FUNCTIONS = ["composed_step", "compose_location", "fetch"]
 RLIMIT = 80
 
@@ -150,7 +150,10 @@ def build(X):
                "            && final(e).location->0.start == pos_of(file_of(*sources, old(e).span->0)->0, old(e).span->0.start)\n"
                "            && final(e).location->0.end == pos_of(file_of(*sources, old(e).span->0)->0, old(e).span->0.end)), // @CP1\n"
                "        // .. its span is what it was ..\n"
-               "        final(e).span == old(e).span, // @CP2\n"
+               "        (old(e).span is Some && file_of(*sources, old(e).span->0) is Some) ==> final(e).span == old(e).span, // @CP2\n"
+               "        // .. and a span that is handed on names one of the sources (C13: `the span lies within the named source file`): a span into a source that is not part of\n"
+               "        // the tree - the standard library - is not\n"
+               "        final(e).span is Some ==> file_of(*sources, final(e).span->0) is Some, // @CP4\n"
                "        // .. and an error without a span, or of an unknown file, is left alone\n"
                "        !(old(e).span is Some && file_of(*sources, old(e).span->0) is Some) ==> (final(e).location == old(e).location && final(e).display == old(e).display), // @CP3\n"
                "{\n    " + cf.text + "\n}\n")
@@ -219,8 +222,33 @@ def _try_lexer():
     return rec
 
 
+# programs whose error arises inside the standard library (a default argument, a signature, the body of a std function): prqlc::compile's ErrorMessages, read as JSON through
+# the harness tools/errdump, must not carry a span that names another source than the one compiled (id 1)
+FOREIGN_SPAN = ['from_text """\na,b\n1,2,3\n"""\n', "from a\nintersect 5\n", "from a\nselect {x}\nremove 5\n", "let f = func a <foo> -> a\nfrom t\nselect {f x}\n",
+                "let relation = (from employees | select {id, name})\n\nfrom relation\ntake 5\n", "from a\nselect {x,"]
+
+
+def _try_foreign(src):
+    import replaylib
+    kind, val = replaylib.compile_errors(src)
+    rec = {"input": src, "expected": "errors whose span - if any - is `1:a-b` with a location and a display", "replay_kind": "foreign_span"}
+    if kind == "panic":
+        rec.update(failing=True, observed=val)
+    elif kind == "ok":
+        rec.update(failing=False, observed="compiles")
+    else:
+        bad = [e for e in val if not e["reason"].strip() or (e["span"] is not None and (not e["span"].startswith("1:") or e["location"] is None or e["display"] is None))]
+        rec.update(failing=bool(bad), observed=[{"reason": e["reason"][:80], "span": e["span"], "location": e["location"]} for e in (bad or val)][:3])
+    return rec
+
+
 def replay(failure):
     lab = failure.get("obligation", "").split(".")[-1]
+    if lab in ("CP4", "CP2", "CP3"):
+        for src in FOREIGN_SPAN:
+            r = _try_foreign(src)
+            if r["failing"]:
+                return r
     order = [_try_two_files, _try_lexer] if lab.startswith("FC") else [_try_lexer, _try_two_files]
     for f in order:
         r = f()
@@ -230,6 +258,8 @@ def replay(failure):
 
 
 def rerun(doc):
+    if doc.get("replay_kind") == "foreign_span":
+        return _try_foreign(doc["input"])
     return _try_two_files() if doc.get("replay_kind") == "two_files" else _try_lexer()
 
 
@@ -241,4 +271,9 @@ def sweep():
     a["obligation"] = "compose_errors.FC1"
     b = _try_lexer()
     b["obligation"] = "compose_errors.CP2"
-    return [a, b]
+    out = [a, b]
+    for src in FOREIGN_SPAN:
+        r = _try_foreign(src)
+        r["obligation"] = "compose_errors.CP4"
+        out.append(r)
+    return out
